@@ -225,7 +225,7 @@ func c04Templates() []c04Tmpl {
 	return T
 }
 
-var c04Contexts = []string{"top", "function", "loop", "if-branch", "elif-branch", "case-body"}
+var c04Contexts = []string{"top", "function", "loop", "if-branch", "elif-branch", "case-body", "nested"}
 
 func c04Program(t c04Tmpl, mask int, ctx string) *Prog {
 	ops := make([]Expr, len(t.plain))
@@ -261,6 +261,11 @@ func c04Program(t c04Tmpl, mask int, ctx string) *Prog {
 	case "case-body":
 		st = append(st, core...)
 		st = append(st, Switch{Tag: Var{"r"}, Cases: []Case{{Val: lit(5), Body: []Stmt{mark("wrong-case")}}, {Val: lit(0), Body: inner}}})
+	case "nested": // function > loop > else branch > case body
+		body := append(core, For{Init: Define{Names: []string{"li"}, Form: DefShort, Vals: []Expr{lit(0)}}, Cond: Binary{Op: "<", L: Var{"li"}, R: lit(2)}, Post: IncDec{Name: "li", Inc: true}, Body: []Stmt{
+			If{Cond: Binary{Op: "==", L: Var{"li"}, R: lit(5)}, Then: []Stmt{mark("wrong-branch")}, HasElse: true, Else: []Stmt{
+				Switch{Tag: Var{"li"}, Cases: []Case{{Val: lit(0), Body: append([]Stmt{mark("iter0")}, inner...)}, {Default: true, Body: []Stmt{mark("iter1")}}}}}}}})
+		st = append(st, FuncDef{Name: "ctx", Body: body}, ExprStmt{X: Call{Fn: "ctx"}})
 	}
 	st = append(st, Print{Args: []Expr{StrLit{V: "end"}, Var{"n"}}})
 	return &Prog{Stmts: st}
@@ -302,6 +307,33 @@ func C04() int {
 				}
 				all = append(all, item{fmt.Sprintf("stmt=%s traced=[%s] ctx=%s", t.name, strings.Join(ids, ","), ctx), c04Program(t, mask, ctx)})
 			}
+		}
+	}
+	// every ordered pair of statement kinds in sequence, all operands traced (helper/register reuse across statements)
+	for _, t1 := range tm {
+		for _, t2 := range tm {
+			if t1.decls != nil || t2.decls != nil || strings.HasPrefix(t1.name, "panic") || (!r.Thorough() && len(t1.plain)+len(t2.plain) > 4) {
+				continue
+			}
+			mk := func(t c04Tmpl, base int) []Stmt {
+				ops := make([]Expr, len(t.plain))
+				for i := range ops {
+					ops[i] = c04Tracer(t.types[i], base+i+1, t.plain[i])
+				}
+				return t.body(ops)
+			}
+			st := append(c04Prelude(), c04Locals()...)
+			st = append(st, mark("first"))
+			st = append(st, mk(t1, 0)...)
+			st = append(st, c04Show(), mark("second"))
+			second := mk(t2, 10)
+			// the second statement must not redefine names of the first
+			if (strings.HasPrefix(t1.name, "define") && strings.HasPrefix(t2.name, "define")) || (t1.name == t2.name && t1.name == "copy-source") {
+				continue
+			}
+			st = append(st, second...)
+			st = append(st, c04Show(), Print{Args: []Expr{StrLit{V: "end"}, Var{"n"}}})
+			all = append(all, item{fmt.Sprintf("stmt=%s then=%s traced=all ctx=top", t1.name, t2.name), &Prog{Stmts: st}})
 		}
 	}
 	r.Set("statement_templates", len(tm))
